@@ -104,6 +104,9 @@ class C09Engine(Engine):
     # defect of the simulator, so the runner's generic fresh-interpreter self-test is replaced by the sweep.  (The
     # same-interpreter second-worker comparison stays a harness error.)
     owns_fresh_check = True
+    prior_sweep_hashseeds = {"quick": [0, 1, 2, 3, 4, 5], "thorough": list(range(24))}
+    prior_sweep_inputs = {"quick": 40, "thorough": 400}
+    prior_sweep = ()
 
     def prepare(self, tier):
         _setup()
@@ -118,6 +121,15 @@ class C09Engine(Engine):
                                       str(m), "--tier", tier], env=env, stdout=subprocess.PIPE,
                                      stderr=subprocess.PIPE, text=True)
                 self.sweep.append((hs, p))
+            # cheap extra hash seeds for the prior-construction code (plain Python, sets/dicts of node ids): JIT off
+            self.prior_sweep = []
+            for hs in self.prior_sweep_hashseeds[tier]:
+                env = fresh_env(hs)
+                env["VERIF_NOJIT"] = "1"
+                p = subprocess.Popen([sys.executable, os.path.join(VERIF_DIR, "sim", "main.py"), "C09", "--op",
+                                      "priorsweep", "--arg", str(self.prior_sweep_inputs[tier]), "--tier", tier],
+                                     env=env, stdout=subprocess.PIPE, stderr=subprocess.PIPE, text=True)
+                self.prior_sweep.append((hs, p))
 
     def n_runs(self, tier):
         return {"quick": 700, "thorough": 60000}[tier]
@@ -448,9 +460,65 @@ class C09Engine(Engine):
                           "samples": [{"what": "per-run event-log digests (each includes every call's output-table "
                                                "digest) recomputed in a fresh interpreter",
                                        "hashseeds": [hs for hs, _ in self.sweep]}]})
+        if self.prior_sweep:
+            outs = {}
+            for hs, p in self.prior_sweep:
+                try:
+                    out, err = p.communicate(timeout=1800)
+                except subprocess.TimeoutExpired:
+                    p.kill()
+                    raise HarnessError(f"prior sweep (PYTHONHASHSEED={hs}) timed out")
+                line = [ln for ln in out.splitlines() if ln.startswith("PRIORS ")]
+                if p.returncode != 0 or not line:
+                    raise HarnessError(f"prior sweep (PYTHONHASHSEED={hs}) failed rc={p.returncode}: {err[-1500:]}")
+                outs[hs] = json.loads(line[-1][7:])
+            base_hs = self.prior_sweep[0][0]
+            viol = []
+            n_cmp = 0
+            for hs, d in outs.items():
+                for k, dig in outs[base_hs].items():
+                    n_cmp += 1
+                    if d.get(k) != dig and not viol:
+                        viol.append({"cls": "restart-nondeterminism", "site": "prior-construction",
+                                     "detail": f"build_prior_grid on generated input #{k} (VERIF_SEED={seed}) gives prior "
+                                               f"digest {d.get(k)} under PYTHONHASHSEED={hs} but {dig} under "
+                                               f"PYTHONHASHSEED={base_hs} (JIT off, fresh interpreters)",
+                                     "replay_args": {"prior_sweep": True, "k": int(k), "hashseeds": [base_hs, hs],
+                                                     "seed": seed, "tier": tier}})
+            parts.append({"name": "prior_hashseed_sweep", "evaluations": n_cmp, "distinct_nontrivial": len(outs[base_hs]),
+                          "hashseeds": sorted(outs), "inputs": len(outs[base_hs]), "violations": viol,
+                          "samples": [{"what": "sha256 of grid_data/timepoints/nonfixed_nodes of build_prior_grid over "
+                                               "generated inputs, recomputed in fresh JIT-off interpreters",
+                                       "first": dict(list(outs[base_hs].items())[:2])}]})
         if tier == "thorough":
             parts.append(self.stub_validation())
         return parts
+
+    def sub_operation(self, op, arg, tier, seed):
+        if op != "priorsweep":
+            raise HarnessError(f"unknown sub-operation {op}")
+        import warnings
+
+        import tsdate
+
+        from ..tape import Tape, sub_seed
+
+        warnings.simplefilter("ignore")
+        out = {}
+        for k in range(int(arg)):
+            tp = Tape(seed=sub_seed(seed, "C09-priors", k))
+            ts, mu, info = workload.gen_msprime(tp, max_samples=8, allow_ancient=False, allow_internal_samples=False,
+                                                diploid=False, max_rho=4.0)
+            params = self.draw_prior_params(tp)
+            params["approx"] = 0
+            pr = self.build_prior(tsdate, ts, params)
+            h = hashlib.sha256()
+            h.update(np.ascontiguousarray(pr.grid_data).tobytes())
+            h.update(np.ascontiguousarray(pr.timepoints).tobytes())
+            h.update(np.ascontiguousarray(pr.nonfixed_nodes).tobytes())
+            out[str(k)] = h.hexdigest()[:16]
+        print("PRIORS " + json.dumps(out))
+        return 0
 
     def stub_validation(self):
         """Not an oracle: a few calls through the REAL multiprocessing.Pool must give the same tables as SimMP."""
@@ -482,6 +550,17 @@ class C09Engine(Engine):
 
     def replay_part(self, doc):
         a = doc["violation"]["replay_args"]
+        if a.get("prior_sweep"):
+            digs = []
+            for hs in a["hashseeds"]:
+                env = fresh_env(hs)
+                env["VERIF_NOJIT"] = "1"
+                env["VERIF_SEED"] = str(a["seed"])
+                p = subprocess.run([sys.executable, os.path.join(VERIF_DIR, "sim", "main.py"), "C09", "--op",
+                                    "priorsweep", "--arg", str(a["k"] + 1)], env=env, capture_output=True, text=True)
+                line = [ln for ln in p.stdout.splitlines() if ln.startswith("PRIORS ")]
+                digs.append(json.loads(line[-1][7:]).get(str(a["k"])) if line else None)
+            return digs[0] != digs[1], f"prior digests under PYTHONHASHSEED {a['hashseeds']}: {digs}"
         from ..runner import run_one
         from ..tape import sub_seed
 
